@@ -581,6 +581,10 @@ fn collect_runtime_types(
                         self.collect_type(elem);
                     }
                 }
+                tast::Ty::TVec { elem } => {
+                    // a slice needs nothing of its own, its element type may
+                    self.collect_type(elem);
+                }
                 tast::Ty::TStruct { name: _ } => {
                     // Vec types are handled as slices, no special collection needed
                 }
